@@ -114,11 +114,11 @@ func vfBackingInit() {
 
 // vfBootResult is what pmm.Init did for one configuration.
 type vfBootResult struct {
-	Panic   interface{}
-	Err     *kernel.Error
-	Early   map[uint64]bool // frames the early allocator handed out before hand-over
+	Panic    interface{}
+	Err      *kernel.Error
+	Early    map[uint64]bool // frames the early allocator handed out before hand-over
 	EarlySeq []uint64
-	Mapped  int
+	Mapped   int
 }
 
 // vfBoot runs the real pmm.Init on cfg with the vmm seams owned by the harness.
